@@ -237,7 +237,8 @@ func isDigitsOnlyPattern(pat string) bool {
 func findIDAtoms(c *aeCtx, fn *ssa.Function, lp *loop) (*idAtoms, string) {
 	id := loopID(fn, lp)
 	a := &idAtoms{}
-	for k, ti := range c.terms {
+	for _, k := range c.termKeys() {
+		ti := c.terms[k]
 		if ti.kind == akPresence && strings.HasPrefix(k, "present:") {
 			if _, ok := c.terms["zip:"+id+"("+strings.TrimPrefix(k, "present:")+")"]; ok {
 				a.pres = k
@@ -248,7 +249,8 @@ func findIDAtoms(c *aeCtx, fn *ssa.Function, lp *loop) (*idAtoms, string) {
 	if a.E == "" || c.terms[a.E] == nil {
 		return nil, "the identifier term of the zip loop was not found"
 	}
-	for k, ti := range c.terms {
+	for _, k := range c.termKeys() {
+		ti := c.terms[k]
 		if len(ti.base) != 1 || ti.base[0] != a.E {
 			continue
 		}
@@ -403,7 +405,8 @@ func zipWorlds(c *aeCtx, root *ssa.Function) (leaves []zipLeaf, fn *ssa.Function
 	id := loopID(fn, lp)
 	pres := ""
 	find := func() {
-		for k, ti := range c.terms {
+		for _, k := range c.termKeys() {
+			ti := c.terms[k]
 			if ti.kind == akPresence && strings.HasPrefix(k, "present:") {
 				if _, ok := c.terms["zip:"+id+"("+strings.TrimPrefix(k, "present:")+")"]; ok {
 					pres = k
@@ -421,7 +424,7 @@ func zipWorlds(c *aeCtx, root *ssa.Function) (leaves []zipLeaf, fn *ssa.Function
 	}
 	if pres == "" {
 		if os.Getenv("GVDEBUG") != "" {
-			for k := range c.terms {
+			for _, k := range c.termKeys() {
 				fmt.Fprintf(os.Stderr, "zipWorlds term %s (loop %s)\n", k, id)
 			}
 		}
@@ -450,18 +453,25 @@ func zipWorlds(c *aeCtx, root *ssa.Function) (leaves []zipLeaf, fn *ssa.Function
 func semverIterLeaves(c *aeCtx, root *ssa.Function) (leaves []idLeaf, atoms *idAtoms, fn *ssa.Function, oof string) {
 	c.queryPair(root, nil, nil)
 	var lp *loop
+	nloops := 0
 	for f := range c.p.AllFns {
 		if !c.p.IsRepoFn(f) || f.Blocks == nil {
 			continue
 		}
 		for _, l := range c.loopsOf(f) {
 			if s, ok := c.lsum[loopID(f, l)]; ok && s.ok {
-				fn, lp = f, l
+				nloops++
+				if lp == nil || loopID(f, l) < loopID(fn, lp) {
+					fn, lp = f, l
+				}
 			}
 		}
 	}
 	if lp == nil {
 		return nil, nil, nil, "no summarised identifier loop"
+	}
+	if nloops > 1 {
+		return nil, nil, fn, fmt.Sprintf("the comparator runs %d position-wise loops: the identifier table of one of them is not the comparator's", nloops)
 	}
 	atoms, why := findIDAtoms(c, fn, lp)
 	if atoms == nil {
@@ -899,7 +909,7 @@ func zipDecides(c *aeCtx, root *ssa.Function, early func(w *world, result int64)
 			}
 			if !zipSeen && v == 0 {
 				// two empty sequences: the loop does not run and the tie is right
-				for k := range c.terms {
+				for _, k := range c.termKeys() {
 					if strings.HasPrefix(k, "len(") {
 						if z := poolIndexInt(c.pools[k], 0); z >= 0 {
 							p0, ok0 := w.pos[posKey(k, 0)]
